@@ -68,7 +68,13 @@ def get_chunk_dtype_transformer(input_dtype, output_dtype, warn=True):
     def chunk_transformer(chunk, preserve_input=True):
         assert np.can_cast(chunk.dtype, input_dtype, casting="equiv")
         if round_to_nearest or clip_values:
-            chunk = np.array(chunk, dtype=work_dtype, copy=preserve_input)
+            # Only work in-place when the caller allows it and the input
+            # can actually be re-used (same dtype, writeable buffer).
+            # copy=False means "never copy" for NumPy >= 2, so use astype.
+            chunk = np.asarray(chunk)
+            chunk = chunk.astype(
+                work_dtype,
+                copy=(preserve_input or not chunk.flags.writeable))
             if round_to_nearest:
                 np.rint(chunk, out=chunk)
             if clip_values:
